@@ -171,10 +171,17 @@ func (bs *Scanner) Scan() bool {
 				newSize = bs.maxTokenSize
 			}
 			newBuf := make([]byte, newSize)
-			copy(newBuf[newSize-(bs.end-bs.start):newSize], bs.buf[bs.start:bs.end])
+			// Keep the pending data right after the space the next read will fill: the free space before it
+			// must not exceed what is left to read, otherwise bytes already buffered would be read again
+			dataLen := bs.end - bs.start
+			newStart := newSize - dataLen
+			if int64(newStart) > bs.rOffset {
+				newStart = int(bs.rOffset)
+			}
+			copy(newBuf[newStart:newStart+dataLen], bs.buf[bs.start:bs.end])
 			bs.buf = newBuf
-			bs.start = newSize - bs.bufSize
-			bs.end = newSize
+			bs.start = newStart
+			bs.end = newStart + dataLen
 			bs.bufSize = newSize
 		}
 	}
